@@ -1293,9 +1293,9 @@ func (e *Entry) ApplyDeviate(deviateOpts ...DeviateOpt) []error {
 							case deviatedNode.IsLeafList():
 								deviatedNode.Default = append(deviatedNode.Default, devSpec.Default...)
 							case len(devSpec.Default) > 1:
-								appendErr(fmt.Errorf("%s: tried to add more than one default to a non-leaflist entry at deviation", Source(e.Node)))
+								appendErr(fmt.Errorf("%s: tried to add more than one default to a non-leaflist entry at deviation", Source(devSpec.Node)))
 							case len(deviatedNode.Default) != 0:
-								appendErr(fmt.Errorf("%s: tried to add a default value to an entry that already has a default value", Source(e.Node)))
+								appendErr(fmt.Errorf("%s: tried to add a default value to an entry that already has a default value", Source(devSpec.Node)))
 							case len(devSpec.Default) == 1 && len(deviatedNode.Default) == 0:
 								deviatedNode.Default = append([]string{}, devSpec.Default[0])
 							}
@@ -1339,7 +1339,7 @@ func (e *Entry) ApplyDeviate(deviateOpts ...DeviateOpt) []error {
 				case DeviationNotSupported:
 					dp := deviatedNode.Parent
 					if dp == nil {
-						appendErr(fmt.Errorf("%s: node %s does not have a valid parent, but deviate not-supported references one", Source(e.Node), e.Name))
+						appendErr(fmt.Errorf("%s: node %s does not have a valid parent, but deviate not-supported references one", Source(devSpec.Node), e.Name))
 						continue
 					}
 					if !hasIgnoreDeviateNotSupported(deviateOpts) {
@@ -1356,11 +1356,11 @@ func (e *Entry) ApplyDeviate(deviateOpts ...DeviateOpt) []error {
 							// It is unclear from RFC7950 on how deviate delete works
 							// when there are duplicate leaf-list values in config-false leafs.
 							// TODO(wenbli): Add support for deleting default values when the leaf-list is a config leaf (duplicates are not allowed).
-							appendErr(fmt.Errorf("%s: deviate delete on default statements unsupported for leaf-lists, please use replace instead", Source(e.Node)))
+							appendErr(fmt.Errorf("%s: deviate delete on default statements unsupported for leaf-lists, please use replace instead", Source(devSpec.Node)))
 						case len(deviatedNode.Default) == 0:
-							appendErr(fmt.Errorf("%s: tried to deviate delete a default statement that doesn't exist", Source(e.Node)))
+							appendErr(fmt.Errorf("%s: tried to deviate delete a default statement that doesn't exist", Source(devSpec.Node)))
 						case devSpec.Default[0] != deviatedNode.Default[0]:
-							appendErr(fmt.Errorf("%s: tried to deviate delete a default statement with a non-matching keyword", Source(e.Node)))
+							appendErr(fmt.Errorf("%s: tried to deviate delete a default statement with a non-matching keyword", Source(devSpec.Node)))
 						default:
 							deviatedNode.Default = nil
 						}
